@@ -44,7 +44,11 @@ fn stalls(proxy: bool) -> Vec<&'static str> {
 async fn hostile(server: SocketAddr, proxy: bool, stall: &str, n: usize) -> Option<McClient> {
     let src: SocketAddr = format!("198.51.{}.{}:4000", 100 + n / 200, 20 + n % 200).parse().unwrap();
     let mut c = McClient::connect(server, Some("127.0.0.2".parse().unwrap())).await.ok()?;
-    let hdr = proxy_v1(src, server);
+    // "mapped:<stall>": the load balancer reports its IPv4 clients in IPv4-mapped form (TCP6 ::ffff:a.b.c.d)
+    let (hdr, stall) = match stall.strip_prefix("mapped:") {
+        Some(rest) => (format!("PROXY TCP6 ::ffff:{} ::1 {} {}\r\n", src.ip(), src.port(), server.port()).into_bytes(), rest),
+        None => (proxy_v1(src, server), stall),
+    };
     match stall {
         "connected-silent" => return Some(c),
         "inside-proxy-header-1-byte" => {
@@ -89,6 +93,13 @@ async fn hostile(server: SocketAddr, proxy: bool, stall: &str, n: usize) -> Opti
     Some(c)
 }
 
+fn socket_linger_zero(s: &std::net::TcpStream) -> std::io::Result<()> {
+    use std::os::fd::AsRawFd;
+    let l = libc::linger { l_onoff: 1, l_linger: 0 };
+    let r = unsafe { libc::setsockopt(s.as_raw_fd(), libc::SOL_SOCKET, libc::SO_LINGER, &l as *const _ as *const libc::c_void, std::mem::size_of::<libc::linger>() as libc::socklen_t) };
+    if r == 0 { Ok(()) } else { Err(std::io::Error::last_os_error()) }
+}
+
 /// A long series of short-lived connections, one after the other, none of which is held open; then the
 /// well-behaved client. Whatever each of them cost the listener must have been given back.
 fn run_churn(spec: &Spec) -> (Duration, bool, String, bool) {
@@ -98,7 +109,23 @@ fn run_churn(spec: &Spec) -> (Duration, bool, String, bool) {
         let running = start_listener(&cfg, adapters).await;
         let mut ok = true;
         for i in 0..spec.churn {
+            if spec.stall == "churn-reset-in-backlog" {
+                // connect, abort (RST) and go on without ever yielding to the listener in between: the connection is
+                // already reset when the accept loop picks it up
+                if let Ok(s) = std::net::TcpStream::connect(running.addr) {
+                    let _ = socket_linger_zero(&s);
+                    drop(s);
+                }
+                if i % 8 == 7 {
+                    tokio::time::sleep(Duration::from_millis(2)).await;
+                }
+                continue;
+            }
             let Ok(mut c) = McClient::connect(running.addr, Some("127.0.0.2".parse().unwrap())).await else {
+                if running.done.is_finished() {
+                    // not a harness problem: the listener itself has given up
+                    break;
+                }
                 ok = false;
                 break;
             };
@@ -156,11 +183,14 @@ fn run_churn(spec: &Spec) -> (Duration, bool, String, bool) {
         };
         let r = tokio::time::timeout(BOUND, good).await;
         let elapsed = t0.elapsed();
-        let (served, detail) = match r {
+        let (served, mut detail) = match r {
             Ok(Ok(())) => (true, "served".to_string()),
             Ok(Err(e)) => (false, e),
             Err(_) => (false, "no reply within the bound".into()),
         };
+        if !served && running.done.is_finished() {
+            detail.push_str(" (listen() has returned: the listener stopped accepting although nobody asked it to)");
+        }
         running.stop.cancel();
         let _ = tokio::time::timeout(Duration::from_millis(500), running.done).await;
         (elapsed, served, detail, ok)
@@ -197,7 +227,9 @@ fn run_schedule(spec: &Spec) -> (Duration, bool, String, bool) {
             // hostile ones and differs in its announced source; without it, it is another peer
             let peer = if spec.proxy { "127.0.0.2" } else { "127.0.0.3" };
             let mut c = McClient::connect(running.addr, Some(peer.parse().unwrap())).await.map_err(|e| e.to_string())?;
-            if spec.proxy {
+            if spec.proxy && spec.stall.starts_with("mapped:") {
+                c.send_raw(format!("PROXY TCP6 ::ffff:203.0.113.77 ::1 7777 {}\r\n", running.addr.port()).as_bytes()).await.map_err(|e| e.to_string())?;
+            } else if spec.proxy {
                 c.send_raw(&proxy_v2("203.0.113.77:7777".parse().unwrap(), running.addr)).await.map_err(|e| e.to_string())?;
             }
             if spec.login {
@@ -255,6 +287,12 @@ pub fn run(cli: Cli) -> ! {
             specs.push(Spec { proxy, limiter: true, stall: "connected-silent".into(), hostile: 1, login: true, churn: 0 });
         }
     }
+    // a load balancer that reports IPv4 clients in IPv4-mapped form: each of them is still a client of its own
+    for hostile in [2usize, 9] {
+        for stall in ["mapped:after-handshake", "mapped:proxy-header-complete-nothing-more"] {
+            specs.push(Spec { proxy: true, limiter: true, stall: stall.into(), hostile, login: false, churn: 0 });
+        }
+    }
     // more stalled logins than the machine has cores (whatever a login holds while it waits for its client - a
     // worker, a permit, a lock - there are more waiting clients than that), then a well-behaved login
     let many = 2 * std::thread::available_parallelism().map(|n| n.get()).unwrap_or(16) + 3;
@@ -286,7 +324,7 @@ pub fn run(cli: Cli) -> ! {
         }
     }
     // churn: 1500 (thorough: 5000) short-lived connections one after the other that end on an early exit
-    for (proxy, limiter, kind) in [(true, false, "churn-no-proxy-header"), (false, true, "churn-rate-limited"), (true, true, "churn-rate-limited"), (false, false, "churn-connect-close"), (true, false, "churn-connect-close"), (false, false, "churn-status"), (true, false, "churn-status")] {
+    for (proxy, limiter, kind) in [(true, false, "churn-no-proxy-header"), (false, true, "churn-rate-limited"), (true, true, "churn-rate-limited"), (false, false, "churn-connect-close"), (true, false, "churn-connect-close"), (false, false, "churn-status"), (true, false, "churn-status"), (false, false, "churn-reset-in-backlog"), (true, true, "churn-reset-in-backlog")] {
         specs.push(Spec { proxy, limiter, stall: kind.into(), hostile: 0, login: false, churn: if thorough { 5000 } else { 1500 } });
     }
     specs.push(Spec { proxy: true, limiter: true, stall: "churn-many-sources".into(), hostile: 0, login: false, churn: if thorough { 70_000 } else { 17_000 } });
